@@ -18,6 +18,12 @@ pub const JSX_BODIES: &[&str] = &[
   "function Rec(p) { return <div>{p.n ? <Rec n={p.n - 1}/> : null}</div>; }",
   "const selfRef = <a>{typeof selfRef}</a>;",
   "const g = () => <><b/>{typeof g}</>;",
+  // elements named like the factories themselves (long-form fragments, the factory as a component)
+  "const lf1 = <React.Fragment><i/></React.Fragment>;",
+  "const lf2 = <Fragment></Fragment>;",
+  "const lf3 = <div><F>text</F><Fragment><u/></Fragment></div>;",
+  "const lf4 = <h>x</h>; const lf5 = <React.createElement/>;",
+  "const lf6 = <ul><React.Fragment key=\"k\"><li/></React.Fragment></ul>;",
 ];
 pub const IMPORTS: &[&str] = &[
   "import { h } from \"preact\";",
